@@ -180,8 +180,24 @@ func legCase(c *Ctx) {
 		if strings.Contains(p.pat, `\1`) || strings.Contains(p.pat, `\k<`) {
 			hits["backref"]++
 		}
-		for k := 0; k < c.N(10, 30); k++ {
+		nIn := c.N(10, 30)
+		if len(p.pat) < 16 {
+			nIn = c.N(60, 200) // the hand-written templates are few and cheap: many more inputs each
+		}
+		for k := 0; k < nIn; k++ {
 			in := randString(c.Rng, alphabet, 7)
+			if k%3 == 0 {
+				// short inputs made only of the pattern's own letters in both cases
+				var ls []rune
+				for _, ch := range p.pat {
+					if unicode.IsLetter(ch) {
+						ls = append(ls, ch, swapCase(ch))
+					}
+				}
+				if len(ls) > 0 {
+					in = randString(c.Rng, ls, 5)
+				}
+			}
 			// seed the input with the pattern's own letters so that matches are frequent
 			for _, ch := range p.pat {
 				if unicode.IsLetter(ch) && c.Rng.Chance(30) && len(in) > 0 {
